@@ -146,7 +146,7 @@ def gen_bias(r, name, cvs):
     return {"name": name, "kind": kind, "cvs": names, "conf": "\n".join(L) + "\n"}
 
 
-def gen_sequence(r, k, length):
+def gen_sequence(r, k, length, with_set=True):
     """A random history over {add variable, add bias, delete bias, delete variable, reset, step, script set}.
     Returns list of events; each event is a dict with 'op' and what it concerns."""
     ev = []
@@ -180,6 +180,8 @@ def gen_sequence(r, k, length):
         elif x < 0.86:
             pos = [(a, V.dyadic(r, -3, 3, 4), V.dyadic(r, -3, 3, 4), V.dyadic(r, -3, 3, 4)) for a in range(1, NATOMS + 1)]
             ev.append({"op": "step", "pos": pos})
+        elif not with_set:
+            continue
         else:
             # script "set" of a feature of a variable or a bias
             if biases and r.random() < 0.4:
@@ -372,34 +374,151 @@ def model_line(lagged, opline, st):
     return "OP %d %d %s %s ST %s" % (1 if lagged else 0, FUEL, op, " ".join(args), D.encode_state(st))
 
 
-# witnesses of the *_refuted theorems, replayed on the implementation on every run
-WITNESS_CONF = """colvar {
-  name w
-  outputTotalForce on
-  distance {
-    group1 { atomNumbers 1 }
-    group2 { atomNumbers 2 }
+# ------------------------------------------------------------------ findings (root causes) and their fixed witnesses
+F1 = "double-release-on-delete-of-inactive-bias"
+F2 = "variable-deactivated-when-last-bias-deleted"
+F3 = "disable-with-one-dependent"
+F4 = "failed-enable-leaks-ref-counts"
+
+XZ = """colvar {
+  name x
+  distanceZ {
+    main { atomNumbers 1 }
+    ref { dummyAtom (0,0,0) }
+    axis (0,0,1)
   }
 }
 """
+HARM = """harmonic {
+  name %s
+  colvars x
+  centers 0.0
+  forceConstant 2.0
+%s}
+"""
+
+W_F1 = ("natoms 2\nnew\nconfig EOF\n" + XZ + HARM % ("h1", "  timeStepFactor 2\n") + HARM % ("h2", "") + "EOF\n"
+        "pos 1 0 0 1.0\nstep\npos 1 0 0 2.0\nstep\nscript cv bias h1 delete\npos 1 0 0 3.0\nstep\necho END\n")
+W_F1_REF = ("natoms 2\nnew\nconfig EOF\n" + XZ + HARM % ("h2", "") + "EOF\n"
+            "pos 1 0 0 1.0\nstep\npos 1 0 0 2.0\nstep\npos 1 0 0 3.0\nstep\necho END\n")
+W_F2 = ("natoms 2\nnew\nconfig EOF\n" + XZ + HARM % ("h1", "") + "EOF\n"
+        "pos 1 0 0 1.0\nstep\nscript cv bias h1 delete\npos 1 0 0 3.0\nstep\necho END\n")
+W_F2_REF = ("natoms 2\nnew\nconfig EOF\n" + XZ + "EOF\npos 1 0 0 1.0\nstep\npos 1 0 0 3.0\nstep\necho END\n")
+# colvar x with outputTotalForce: feature 20 (output_total_force, user) requires 7 (total_force, dynamic, ref_count 1)
+W_F3 = ("natoms 2\nnew\nconfig EOF\n" + XZ.replace("  name x\n", "  name x\n  outputTotalForce on\n") + "EOF\n"
+        "dumpdeps\nscriptset colvar x 7 0\ndumpdeps\necho END\n")
+# failed enable: colvar d (distanceVec, not scalar): enabling 4 (collect_gradient) requires 3 (gradient: taken), then 34 (scalar: fails)
+W_F4 = ("natoms 3\nnew\nconfig EOF\ncolvar {\n  name d\n  distanceVec {\n    group1 { atomNumbers 1 }\n    group2 { atomNumbers 2 }\n  }\n}\nEOF\n"
+        "dumpdeps\ndepsop 0 enable 4 0 1 0\ndumpdeps\necho END\n")
+
+
+def run_scn(unit, d, text, name="w.scn"):
+    p = os.path.join(d, name)
+    open(p, "w").write(text)
+    rc, o, e = V.sh([unit, p], cwd=d, timeout=120)
+    return rc, o, e
+
+
+def replay_witnesses(run, unit, d, tabs, model):
+    """The counterexamples of the *_refuted theorems, replayed on the implementation on every run."""
+    # F1: forces of the surviving bias vanish after an asleep multiple-time-step bias is deleted
+    rc, o, e = run_scn(unit, d, W_F1)
+    rc2, o2, e2 = run_scn(unit, d, W_F1_REF)
+    A, B = last_step_block(o), last_step_block(o2)
+    run.count("witness:F1", True)
+    if A is not None and B is not None and not obs_equal(A, B):
+        run.violation(F1, "deleting bias h1 (timeStepFactor 2) at an odd step, while it is asleep, calls free_children_deps() a second time "
+                      "(colvarbias::clear does not test is_enabled()): the references of the surviving bias h2 on variable x are released, "
+                      "and at the next step h2's force is not applied: %s instead of %s" % (
+                          [l for l in A if l.startswith(("STEP", "ATOMF"))], [l for l in B if l.startswith(("STEP", "ATOMF"))]),
+                      {"kind": "identity", "scenario": W_F1, "reference": W_F1_REF})
+    # F2: a variable stops being computed when its last bias is deleted
+    rc, o, e = run_scn(unit, d, W_F2)
+    rc2, o2, e2 = run_scn(unit, d, W_F2_REF)
+    A, B = last_step_block(o), last_step_block(o2)
+    run.count("witness:F2", True)
+    if A is not None and B is not None and not obs_equal(A, B):
+        run.violation(F2, "after defining and deleting a bias on variable x, x is no longer computed (active has ref_count 0 from its toplevel "
+                      "enable, the bias adds and removes one reference, reaching 0 auto-disables it): %s instead of %s" % (
+                          [l for l in A if l.startswith("CV")], [l for l in B if l.startswith("CV")]),
+                      {"kind": "identity", "scenario": W_F2, "reference": W_F2_REF})
+    # F3: script "set <feature> off" of a feature with exactly one dependent
+    rc, o, e = run_scn(unit, d, W_F3)
+    dumps = D.parse_deps_blocks(o.split("\n"))
+    run.count("witness:F3", True)
+    if len(dumps) == 2:
+        before, after = D.monitor(tabs, dumps[0]), D.monitor(tabs, dumps[1])
+        new = [t for t in after if t not in before and t[0] == "I1"]
+        if new:
+            run.violation(F3, "`cv colvar x set \"total force\" off` succeeds although output_total_force needs it (disable() refuses only when "
+                          "ref_count > 1, and one dependent gives ref_count 1): %s" % new[0][1], {"kind": "scenario", "scenario": W_F3})
+    # F4: failed enable leaves the reference taken for the requirement resolved before the failure
+    rc, o, e = run_scn(unit, d, W_F4)
+    dumps = D.parse_deps_blocks(o.split("\n"))
+    run.count("witness:F4", True)
+    if len(dumps) == 2 and "DEPSOP res=1" in o:
+        b, a = dumps[0]["objs"][0]["fs"], dumps[1]["objs"][0]["fs"]
+        ch = [(f, x, y) for f, (x, y) in enumerate(zip(b, a)) if x != y]
+        if ch:
+            run.violation(F4, "enable(collect_gradient) on a non-scalar variable fails (scalar is not enabled) but leaves what it had already "
+                          "resolved: %s" % "; ".join("feature %d (%s) %s -> %s" % (f, tabs[1][f]["D"], x, y) for f, x, y in ch[:3]),
+                          {"kind": "scenario", "scenario": W_F4})
+
+
+def biases_inactive(st):
+    return [o["desc"] for o in st["objs"] if o["cls"] == 0 and o["fs"] and not o["fs"][0][1]]
+
+
+def drop_object(st_tokens_state, k):
+    pass
+
+
+def renumber_without(st, k):
+    """state with object k removed and larger numbers shifted (k is a bias: referenced only in parents lists)"""
+    objs = []
+    for i, o in enumerate(st["objs"]):
+        if i == k:
+            continue
+        objs.append({"cls": o["cls"], "fs": o["fs"], "desc": o.get("desc", ""),
+                     "ch": [c - 1 if c > k else c for c in o["ch"] if c != k],
+                     "pa": [c - 1 if c > k else c for c in o["pa"] if c != k]})
+    return {"objs": objs, "atoms": st.get("atoms", {})}
+
+
+def decode_state(tokens):
+    t = [int(x) for x in tokens]
+    p = 0
+    n = t[p]; p += 1
+    objs = []
+    for _ in range(n):
+        cls, nf = t[p], t[p + 1]; p += 2
+        fs = []
+        for _ in range(nf):
+            a, e, rc, na = t[p:p + 4]; p += 4
+            fs.append((a, e, rc, t[p:p + na])); p += na
+        nch = t[p]; p += 1; ch = t[p:p + nch]; p += nch
+        npa = t[p]; p += 1; pa = t[p:p + npa]; p += npa
+        objs.append({"cls": cls, "fs": fs, "ch": ch, "pa": pa})
+    return {"objs": objs, "atoms": {}}
 
 
 def check(run):
     r = V.rng("C13")
     quick = run.tier == "quick"
     run.cov["rule"] = ("histories: random sequences (length 6-40) over {add variable (7 component kinds, boundaries, extended Lagrangian, "
-                       "output flags, MTS), add bias (6 kinds, 1-2 variables), delete bias, delete variable, reset, step, script set of a feature}; "
-                       "the whole dependency state is dumped after every event, then 12-25 random primitive calls "
-                       "(enable with all flag combinations / disable / decr_ref_count / free_children_deps / restore_children_deps on a random (object, feature)) "
-                       "are made on the real objects, each replayed by the extracted model from the preceding dump. "
-                       "distinct = distinct (operation, pre-state) pairs; non-trivial = the primitive changed the state or failed")
+                       "output flags, MTS), add bias (6 kinds, 1-2 variables, MTS), delete bias, delete variable, reset, step, script set of a feature}; "
+                       "the whole dependency state is dumped after every event (invariant monitor; every bias deletion is replayed by the model's delete_bias), "
+                       "then 12-25 random primitive calls (enable with all flag combinations / disable / decr_ref_count / free_children_deps / "
+                       "restore_children_deps on a random (object, feature)) are made on the real objects, each replayed by the extracted model "
+                       "from the preceding dump; a second stream of histories without script-set is re-run with only the surviving objects "
+                       "and the last step's values/energies/forces/atoms in use are compared. "
+                       "distinct = distinct (operation, pre-state) pairs; non-trivial = the primitive changed the state or failed / the history deleted something")
     run.assumptions += [
         "the dependency state is read with `#define private public` in props/C13/unit.cpp (no hook in /repo)",
-        "the model covers colvardeps.cpp only; the feature requests made by the init functions of colvar/bias/cvc/atom group "
-        "are not modelled: their effect enters the tie through the dumped reachable states, and the define/delete identity is "
-        "checked on the implementation (survivors-only re-run), not proved",
+        "the model covers colvardeps.cpp (+ the dependency part of colvarbias::clear); the feature requests made by the init functions of "
+        "colvar/bias/cvc/atom group are not modelled: their effect enters the tie through the dumped reachable states, and the "
+        "define/delete identity is checked on the implementation (survivors-only re-run), not proved",
     ]
-    # tables first: the proofs are checked against the regenerated tables
     try:
         unit = V.build_prog("c13unit", UNIT_SRC)
     except V.InfraError as e:
@@ -410,6 +529,9 @@ def check(run):
         return
     tabs_same, tabs_lagged = regen_tables(unit)
     run.cov["correspondence"]["table_sizes"] = {D.CLASSES[c]: len(t) for c, t in tabs_same.items()}
+    # failing inputs for the table theorems come from the python re-check of the same tables
+    table_oracles(run, tabs_same, "samestep")
+    table_oracles(run, tabs_lagged, "lagged")
     st = V.standard_start(run, PROP, EXTRACT, DRIVER, {"c13unit": UNIT_SRC}, extra_ml=())
     if st is None:
         return
@@ -417,24 +539,18 @@ def check(run):
     unit = exes["c13unit"]
     d = V.scratch("C13")
 
-    # ---- table oracles (failing input when a table theorem breaks)
-    table_oracles(run, tabs_same, "samestep")
-    table_oracles(run, tabs_lagged, "lagged")
+    replay_witnesses(run, unit, d, tabs_same, model)
 
-    # ---- replay of the refuted-theorem witnesses on the implementation
-    replay_witnesses(run, unit, d, tabs_same)
-
-    nseq = 36 if quick else 700
+    nseq = 30 if quick else 600
     seqs = [gen_sequence(r, k, r.randint(6, 40 if k % 3 else 14)) for k in range(nseq)]
     mlines, mexpect = [], []
-    nprim = 0
+    nprim = ndel = 0
     for seq in seqs:
         tabs = tabs_same if seq["samestep"] else tabs_lagged
-        # (1) history with a dump after every event
+        lag = 0 if seq["samestep"] else 1
+        # (1) history with a dump after every event: monitor + model replay of bias deletions
         sc = scenario(seq, dumps=True)
-        p = os.path.join(d, "s.scn")
-        open(p, "w").write(sc)
-        rc, o, e = V.sh([unit, p], cwd=d, timeout=120)
+        rc, o, e = run_scn(unit, d, sc, "s.scn")
         blocks = split_events(o)
         if blocks is None:
             run.violation("history:crash", "the engine simulator died (rc=%d) during a define/delete history: %s" % (rc, (o[-300:] + e[-300:])),
@@ -442,41 +558,48 @@ def check(run):
             continue
         run.dist("histories")
         final = None
+        prev = {"objs": [], "atoms": {}}
+        prev_bad = set()
+        tainted = False
         for i, (ev, blk) in enumerate(zip(seq["events"], blocks)):
             run.dist("event:" + ev["op"])
             dumps = D.parse_deps_blocks(blk.split("\n"))
             if not dumps:
                 continue
-            final = dumps[-1]
-            for code, text in D.monitor(tabs, final):
-                run.violation("monitor:" + code, "after event %d (%s) of a define/delete history: %s" % (i, ev["op"], text),
-                              {"kind": "scenario", "scenario": scenario({"id": seq["id"], "samestep": seq["samestep"], "events": seq["events"][:i + 1]}), "monitor": text})
+            cur = dumps[-1]
+            final = cur
+            part = {"id": seq["id"], "samestep": seq["samestep"], "events": seq["events"][:i + 1]}
+            # model replay of the deletion of a bias
+            if ev["op"] == "delbias" and "SCRIPT err=ok" in blk and D.encodable(prev):
+                k = [j for j, ob in enumerate(prev["objs"]) if ob["desc"] == "bias_" + ev["name"]]
+                if len(k) == 1:
+                    mlines.append("OP %d %d deletebias %d ST %s" % (lag, FUEL, k[0], D.encode_state(prev)))
+                    mexpect.append(("delete", k[0], cur, part, None, None))
+                    ndel += 1
+            bad = D.monitor(tabs, cur)
+            new = [b for b in bad if b[1] not in prev_bad]
+            prev_bad = set(b[1] for b in bad)
+            if new and not tainted:
+                code, text = new[0]
+                if ev["op"] in ("delbias", "delcv") and biases_inactive(prev):
+                    sig = F1
+                elif ev["op"] == "set" and ev["val"] == 0:
+                    sig = F3
+                else:
+                    sig = "monitor:%s:%s" % (code, ev["op"])
+                tainted = True
+                run.violation(sig, "after event %d (%s) of a define/delete history: %s" % (i, ev["op"], text),
+                              {"kind": "scenario", "scenario": scenario(part), "monitor": text})
+            prev = cur
         if final is None:
             continue
-        # (2) survivors-only re-run: same observables at the last step, same dependency state, same atoms in use
-        ref, lcv, lb = survivors_only(seq)
-        sc2 = scenario(ref, dumps=False)
-        open(p, "w").write(sc2)
-        rc2, o2, e2 = V.sh([unit, p], cwd=d, timeout=120)
-        sc1 = scenario(seq, dumps=False)
-        open(p, "w").write(sc1)
-        rc1, o1, e1 = V.sh([unit, p], cwd=d, timeout=120)
-        if "echo END" in o1 and "echo END" in o2:
-            f1 = D.parse_deps_blocks(o1.split("\n"))
-            f2 = D.parse_deps_blocks(o2.split("\n"))
-            ndel = sum(1 for ev in seq["events"] if ev["op"] in ("delbias", "delcv", "reset"))
-            run.count("identity:%d" % seq["id"], ndel > 0 and bool(lcv))
-            run.dist("identity:deleted_objects", ndel)
-            if f1 and f2:
-                compare_identity(run, seq, ref, f1[-1], f2[-1], o1, o2, tabs)
-        # (3) primitive-step correspondence from the reached state
+        # (2) primitive-step correspondence from the reached state
         ops = gen_depsops(r, final, tabs, r.randint(12, 25))
         tail = []
         for opl in ops:
             tail += [opl, "dumpdeps"]
         sc3 = scenario(seq, dumps=False, tail=tail)
-        open(p, "w").write(sc3)
-        rc3, o3, e3 = V.sh([unit, p], cwd=d, timeout=120)
+        rc3, o3, e3 = run_scn(unit, d, sc3, "s.scn")
         if "echo END" not in o3:
             run.violation("primitive:crash", "the unit driver died (rc=%d) while calling dependency primitives: %s" % (rc3, e3[-300:]),
                           {"kind": "scenario", "scenario": sc3})
@@ -491,28 +614,83 @@ def check(run):
             if not D.encodable(pre) or not results[k].startswith("res="):
                 run.dist("primitive:skipped")
                 continue
-            mlines.append(model_line(not seq["samestep"], opl, pre))
-            mexpect.append((results[k][4:] + " " + D.encode_state(post), opl, seq, k, ops))
+            mlines.append(model_line(lag, opl, pre))
+            mexpect.append(("prim", results[k][4:] + " " + D.encode_state(post), opl, seq, k, ops))
             nprim += 1
-    # run the model on all primitive cases
+    # run the model on all cases
     rc, mout, e = V.run_lines(model, mlines, timeout=900)
     if len(mout) != len(mlines):
         run.mismatch("primitive:model-run", {"n": len(mlines)}, "%d cases" % len(mlines), "%d answers (rc=%d) %s" % (len(mout), rc, e[-300:]))
-    for ml, mo, (exp, opl, seq, k, ops) in zip(mlines, mout, mexpect):
+    for ml, mo, ex in zip(mlines, mout, mexpect):
+        if ex[0] == "delete":
+            _, k, cur, part, _, _ = ex
+            run.count(ml, True)
+            run.dist("model:delete_bias")
+            w = mo.split()
+            if w[0] != "0":
+                run.mismatch("delete_bias", {"scenario": scenario(part), "model_case": ml}, "deleted", mo[:200])
+                continue
+            got = D.encode_state(renumber_without(decode_state(w[1:]), k))
+            exp = D.encode_state(cur)
+            if got != exp:
+                run.mismatch("delete_bias", {"scenario": scenario(part), "model_case": ml}, exp[:3000], got[:3000])
+            continue
+        _, exp, opl, seq, k, ops = ex
         pre_tokens = ml.split(" ST ")[1]
         changed = exp.split(" ", 1)[1] != pre_tokens or exp.startswith("1")
         kind = opl.split()[2]
         run.count(ml, changed)
         run.dist("primitive:" + kind)
         run.dist("primitive:result=" + exp.split(" ", 1)[0])
+        if changed:
+            run.dist("primitive:state-changed-or-failed")
         if mo.strip() != exp.strip():
             tail = []
             for opl2 in ops[:k + 1]:
                 tail += [opl2, "dumpdeps"]
             run.mismatch("primitive:" + kind, {"op": opl, "scenario": scenario(seq, dumps=False, tail=tail), "model_case": ml},
-                         exp[:2000], mo[:2000])
-    run.sample({"primitive_case": mlines[0][:400] if mlines else None, "impl": mexpect[0][0][:200] if mexpect else None})
-    run.cov["correspondence"].update({"histories": len(seqs), "primitive_cases": nprim})
+                         exp[:3000], mo[:3000])
+    if mlines:
+        run.sample({"primitive_case": mlines[-1][:300] + " ...", "impl": mexpect[-1][1][:120] if mexpect[-1][0] == "prim" else "delete"})
+
+    # ---- (3) define/delete identity on the implementation: survivors-only re-run
+    r2 = V.rng("C13-identity")
+    nid = 40 if quick else 800
+    for k in range(nid):
+        seq = gen_sequence(r2, k, r2.randint(5, 24), with_set=False)
+        # the compared step comes after every deletion
+        seq["events"].append({"op": "step", "pos": [(a, V.dyadic(r2, -3, 3, 4), V.dyadic(r2, -3, 3, 4), V.dyadic(r2, -3, 3, 4)) for a in range(1, NATOMS + 1)]})
+        tabs = tabs_same if seq["samestep"] else tabs_lagged
+        ref, lcv, lb = survivors_only(seq)
+        sc1, sc2 = scenario(seq, dumps=True), scenario(ref, dumps=False)
+        rc1, o1, e1 = run_scn(unit, d, sc1, "i.scn")
+        rc2, o2, e2 = run_scn(unit, d, sc2, "j.scn")
+        if "echo END" not in o1 or "echo END" not in o2:
+            run.violation("identity:crash", "the engine simulator died during a define/delete history (rc=%d/%d)" % (rc1, rc2),
+                          {"kind": "identity", "scenario": sc1, "reference": sc2})
+            continue
+        if "err=input" in o1 or "err=error" in o1 or "err=input" in o2:
+            run.dist("identity:skipped-failed-definition")
+            continue
+        blocks = split_events(o1) or []
+        # was a bias deleted while inactive / did the monitor fire?
+        f1_hit = False
+        prev = {"objs": [], "atoms": {}}
+        for ev, blk in zip(seq["events"], blocks):
+            dumps = D.parse_deps_blocks(blk.split("\n"))
+            if ev["op"] in ("delbias", "delcv", "reset") and biases_inactive(prev):
+                f1_hit = True
+            if dumps:
+                prev = dumps[-1]
+        f1, f2 = D.parse_deps_blocks(o1.split("\n")), D.parse_deps_blocks(o2.split("\n"))
+        if not f1 or not f2:
+            continue
+        ndeleted = sum(1 for ev in seq["events"] if ev["op"] in ("delbias", "delcv", "reset"))
+        run.count("identity:%d" % k, ndeleted > 0 and bool(lcv))
+        run.dist("identity:histories")
+        run.dist("identity:deletions", ndeleted)
+        compare_identity(run, seq, ref, f1[-1], f2[-1], o1, o2, tabs, f1_hit)
+    run.cov["correspondence"].update({"histories": len(seqs), "primitive_cases": nprim, "delete_bias_cases": ndel, "identity_histories": nid})
 
 
 def table_oracles(run, tabs, label):
@@ -522,8 +700,9 @@ def table_oracles(run, tabs, label):
         for f, ft in enumerate(tab):
             for g in ft["X"]:
                 if g >= len(tab) or f not in tab[g]["X"]:
-                    run.violation("table:exclusion-asymmetric", "%s tables, class %s: feature %d (%s) excludes %d (%s) but not conversely" % (
-                        label, D.CLASSES[c], f, ft["D"], g, tab[g]["D"] if g < len(tab) else "?"), {"kind": "table", "class": c, "f": f, "g": g})
+                    run.violation("table:exclusion-asymmetric", "%s tables, class %s: feature %d (%s) excludes %d (%s) but not conversely: "
+                                  "enabling %d first and then %d leaves both enabled" % (
+                        label, D.CLASSES[c], f, ft["D"], g, tab[g]["D"] if g < len(tab) else "?", f, g), {"kind": "table", "class": c, "f": f, "g": g})
             for g in ft["C"]:
                 if g >= len(tabs.get(child_cls[c], [])):
                     run.violation("table:child-id", "%s tables, class %s: feature %d requires child feature %d outside the child table" % (label, D.CLASSES[c], f, g),
@@ -537,7 +716,7 @@ def table_oracles(run, tabs, label):
                     label, D.CLASSES[c], f, ft["D"], sorted(cl & set(ft["X"]))), {"kind": "table", "class": c, "f": f})
 
 
-def compare_identity(run, seq, ref, s1, s2, o1, o2, tabs):
+def compare_identity(run, seq, ref, s1, s2, o1, o2, tabs, f1_hit):
     rp = {"kind": "identity", "scenario": scenario(seq, dumps=False), "reference": scenario(ref, dumps=False)}
     if len(s1["objs"]) != len(s2["objs"]):
         run.violation("identity:objects", "after the history %d objects remain, %d in the run where the deleted objects never existed" % (
@@ -546,29 +725,21 @@ def compare_identity(run, seq, ref, s1, s2, o1, o2, tabs):
     if live_atoms(s1) != live_atoms(s2):
         run.violation("identity:atoms", "atoms in use after the history %s differ from those of the run without the deleted objects %s" % (
             live_atoms(s1), live_atoms(s2)), rp)
-    k1, k2 = deps_key(s1), deps_key(s2)
-    if k1 != k2:
-        diffs = []
-        for oi, (a, b) in enumerate(zip(k1, k2)):
-            if a != b:
-                tab = tabs.get(a[0], [])
-                for f, (x, y) in enumerate(zip(a[3], b[3])):
-                    if x != y:
-                        diffs.append("%s feature %d (%s): (avail,enabled,ref_count,alt)=%s vs %s" % (
-                            s1["objs"][oi]["desc"], f, tab[f]["D"] if f < len(tab) else "?", x, y))
-                if a[1] != b[1] or a[2] != b[2]:
-                    diffs.append("%s: children/parents %s/%s vs %s/%s" % (s1["objs"][oi]["desc"], a[1], a[2], b[1], b[2]))
-        enabled_diff = [t for t in diffs if True]
-        run.violation("identity:deps", "dependency state of the surviving objects differs from the run in which the deleted objects never existed: " +
-                      "; ".join(diffs[:4]), rp)
+    # variables that are active in the reference but not after the history
+    deact = [a["desc"] for a, b in zip(s1["objs"], s2["objs"]) if a["cls"] == 1 and b["cls"] == 1 and a["fs"] and b["fs"] and b["fs"][0][1] and not a["fs"][0][1]]
+    run.dist("identity:deps-state-equal" if deps_key(s1) == deps_key(s2) else "identity:deps-state-differs")
     A, B = last_step_block(o1), last_step_block(o2)
     if A is not None and B is not None and not obs_equal(A, B):
-        run.violation("identity:observables", "values/energies/forces at the last step differ from the run without the deleted objects: %s vs %s" % (
-            [l for l, m in zip(A, B) if l != m][:3], [m for l, m in zip(A, B) if l != m][:3]), rp)
-
-
-def replay_witnesses(run, unit, d, tabs):
-    pass
+        diffA = [l for l in A if l not in B][:4]
+        diffB = [l for l in B if l not in A][:4]
+        if f1_hit:
+            sig = F1
+        elif deact:
+            sig = F2
+        else:
+            sig = "identity:observables"
+        run.violation(sig, "values/energies/forces at the last step differ from the run in which the deleted objects never existed: %s instead of %s%s" % (
+            diffA, diffB, (" (inactive after the history: %s)" % deact) if deact else ""), rp)
 
 
 def replay(path):
